@@ -238,6 +238,15 @@ class SymEx:
                 e = self.operand(path, t[4])
                 cv = const_value(e)
                 targets = t[6]
+                if cv is None:
+                    # prune infeasible re-tests: the same symbolic expression was already decided on this path
+                    for ce, v, pos in path.conds:
+                        if ce == e:
+                            if pos:
+                                cv = v
+                            elif t[5] == "bool" and tuple(v) == (0,):
+                                cv = 1
+                            break
                 if cv is not None:
                     nb = t[7]
                     for v, tb in targets:
